@@ -20,6 +20,7 @@ Statement of the property, clause by clause:
 -/
 import OccaProofs.Lemmas.CacheKey
 import OccaProofs.Lemmas.JsonDump
+import OccaProofs.Lemmas.HashExact
 
 namespace Occa.CacheKey.C06
 open Occa.CacheKeyBase Occa.CacheKey
@@ -109,6 +110,45 @@ theorem C06_collision_reduces (e : Env κ σ) (c₁ c₂ : Config)
     exact Classical.byContradiction fun hn => hno (.full x y hn hxy)
   · intro x y hxy
     exact Classical.byContradiction fun hn => hno (.tweak x y hn hxy)
+
+/-- For the model of the real encoder the reduction names the culprit: if two configurations
+    with well-formed property values and different effective inputs have the same kernel key, then
+    the HASH FUNCTION itself has a collision (two different strings with the same hash) — the
+    text embedding, the renderings and the mode constant being injective, as they are in the C++
+    (identity, hex string of all 256 bits, xor with a constant).  No injectivity of `H` is
+    assumed: this is the statement that applies to occa's real 256-bit hash. -/
+theorem C06_collision_is_hash_collision (e : Env κ String) (henc : e.enc = dump)
+    (hraw : Function.Injective e.raw) (hfull : Function.Injective e.full)
+    (htweak : Function.Injective e.tweak) (hfw : ∀ k, (e.full k).WF)
+    (c₁ c₂ : Config) (w₁ : c₁.WF) (w₂ : c₂.WF)
+    (h : baseKey e c₁ = baseKey e c₂) (hne : c₁.effective ≠ c₂.effective) :
+    ∃ x y : String, x ≠ y ∧ e.H x = e.H y := by
+  apply Classical.byContradiction
+  intro hno
+  apply hne
+  apply C06_injective_dump e henc _ hraw hfull htweak hfw c₁ c₂ w₁ w₂ h
+  intro x y hxy
+  exact Classical.byContradiction fun hn => hno ⟨x, y, hn, hxy⟩
+
+/-- The closed form for the exact model: `exactEnv` is the very instance the driver runs
+    (lean/Driver/Cache.lean, whose keys are compared bit for bit with the real setupKernelInfo):
+    the hash_t model of C27 on the bytes of a string, the dump model, the hex string of all 256
+    bits, the OpenMP xor constant; `Lemmas/HashExact.lean` proves the
+    side conditions — getFullString injective on well-formed hashes from C27's round trip, xor with
+    a constant an involution), two configurations with well-formed property values, different
+    effective inputs and the same kernel key exhibit two different strings with the same
+    `occa::hash` — on Serial (`openmp = false`) and OpenMP (`openmp = true`) devices alike. -/
+theorem C06_exact_collision_is_hash_collision (openmp : Bool) (dev : Hash.Lanes) (hdev : Hash.WellFormed dev)
+    (c₁ c₂ : Config) (w₁ : c₁.WF) (w₂ : c₂.WF)
+    (h : baseKey (exactEnv openmp dev) c₁ = baseKey (exactEnv openmp dev) c₂)
+    (hne : c₁.effective ≠ c₂.effective) :
+    ∃ x y : String, x ≠ y ∧ hashStr x = hashStr y := by
+  have hW : baseKey (exactEnvW openmp ⟨dev, hdev⟩) c₁ = baseKey (exactEnvW openmp ⟨dev, hdev⟩) c₂ :=
+    Subtype.ext (by rw [exactEnvW_baseKey, exactEnvW_baseKey]; exact h)
+  obtain ⟨x, y, hxy, hh⟩ := C06_collision_is_hash_collision (exactEnvW openmp ⟨dev, hdev⟩) rfl (fun _ _ h => h)
+    (exactEnvW_full_inj openmp _) (exactEnvW_tweak_inj openmp _) (exactEnvW_full_wf openmp _)
+    c₁ c₂ w₁ w₂ hW hne
+  exact ⟨x, y, hxy, congrArg Subtype.val hh⟩
 
 /-- Identical builds resolve to the same key: the key is a function of the hashed properties
     and the source text alone — other properties (verbose, …) and anything process-specific do
